@@ -12,6 +12,7 @@ import Rc.Drv.C13
 import Rc.Drv.C04
 import Rc.Drv.C03
 import Rc.Drv.C12
+import Rc.Drv.C06
 import Rc.Drv.C18
 
 def dispatch (prop : String) : Option (List String → String) :=
@@ -25,6 +26,7 @@ def dispatch (prop : String) : Option (List String → String) :=
   | "C04" => some Rc.Drv.C04.handle
   | "C03" => some Rc.Drv.C03.handle
   | "C12" => some Rc.Drv.C12.handle
+  | "C06" => some Rc.Drv.C06.handle
   | "C18" => some Rc.Drv.C18.handle
   | _ => none
 
